@@ -1,7 +1,7 @@
 (* C06 at code level: the builder's capacity test and the small accessors of builder.go as printed
    into the REGENERATED GoLite program (Gen/Generated.v, from the Go source on every run) compute
    what the hand-written model computes (Builder.can_fit, bd_cur, bd_thr, max_share_offset).
-   Statements only; proofs in GenMoreProofs.v.
+   Statements only; proofs in GenMoreBase GenMoreC06.v.
 
    A *Builder receiver is passed as its integer fields
    [maxSquareSize; currentSize; done; subtreeRootThreshold] (builder_fields b for a model record b),
@@ -11,7 +11,7 @@
 From Coq Require Import List ZArith NArith String.
 From GS.Model Require Import Base Builder GoLite.
 From GS.Gen Require Import Generated.
-From GS.GenProofs Require Import GenLink GenMoreProofs.
+From GS.GenProofs Require Import GenLink GenMoreBase GenMoreC06.
 Open Scope string_scope. Open Scope Z_scope.
 
 (* (b *Builder) canFit(shareNum int) bool: exactly when neither currentSize+shareNum nor
